@@ -1099,6 +1099,8 @@ func (ex *Exec) parseInt(s *Str, base, bitSize int, fnName string) (*Term, Iface
 		panic(unsupported("ParseInt symbolic with more than 18 digits"))
 	}
 	acc := ts.BVConst(0, 64)
+	accI := ts.IntConst64(0)
+	ten := ts.IntConst64(10)
 	for ; i < n; i++ {
 		b := ex.strAt(s, i)
 		isD := ts.And(ts.BVCmp(OpULe, ex.byteC('0'), b), ts.BVCmp(OpULe, b, ex.byteC('9')))
@@ -1110,9 +1112,15 @@ func (ex *Exec) parseInt(s *Str, base, bitSize int, fnName string) (*Term, Iface
 		}
 		d := ts.ZExt(ts.BVBin(OpSub, b, ex.byteC('0')), 64)
 		acc = ts.BVBin(OpAdd, ts.BVBin(OpMul, acc, ts.BVConst(10, 64)), d)
+		accI = ts.IntBin(OpIAdd, ts.IntBin(OpIMul, ten, accI), ex.digitInt(b))
 	}
 	if neg {
 		acc = ts.BVUn(OpNeg, acc)
+		accI = ts.INeg(accI)
+	}
+	if !acc.IsConst() {
+		// the same value in the Int theory (<= 18 digits: no wrap-around), used by big.NewInt
+		ex.intShadow[acc] = accI
 	}
 	if bitSize != 0 && bitSize != 64 {
 		lim := int64(1) << (bitSize - 1)
@@ -1122,6 +1130,32 @@ func (ex *Exec) parseInt(s *Str, base, bitSize int, fnName string) (*Term, Iface
 		}
 	}
 	return acc, IfaceV{}
+}
+
+// digitInt returns the Int term for the decimal digit byte b (b is known to be '0'..'9'):
+// an ite chain over the ten values, which solvers handle far better than bv2nat.
+func (ex *Exec) digitInt(b *Term) *Term {
+	ts := ex.ts
+	if b.IsConst() {
+		return ts.IntConst64(int64(b.C) - '0')
+	}
+	r := ts.IntConst64(9)
+	for v := 8; v >= 0; v-- {
+		r = ts.Ite(ts.Eq(b, ex.byteC(byte('0'+v))), ts.IntConst64(int64(v)), r)
+	}
+	return r
+}
+
+// witnessDigit creates a fresh decimal digit: returns its Int value term and its ASCII byte term.
+func (ex *Exec) witnessDigit() (*Term, *Term) {
+	ts := ex.ts
+	d := ex.freshAux("digit", SInt)
+	ex.assume(ts.And(ts.ICmp(OpILe, ts.IntConst64(0), d), ts.ICmp(OpILe, d, ts.IntConst64(9))), true)
+	b := ex.byteC('9')
+	for v := 8; v >= 0; v-- {
+		b = ts.Ite(ts.Eq(d, ts.IntConst64(int64(v))), ex.byteC(byte('0'+v)), b)
+	}
+	return d, b
 }
 
 // formatSymInt renders a symbolic integer in decimal: forks on the digit count and
@@ -1159,14 +1193,16 @@ func (ex *Exec) formatSymInt(t *Term, signed bool) *Str {
 	}
 	// witness digits, in the Int theory to avoid bit-vector multiplication
 	magI := ts.BV2Int(mag, false)
+	if sh, ok := ex.intShadow[mag]; ok {
+		magI = sh
+	}
 	sum := ts.IntConst64(0)
 	digits := make([]*Term, nd)
 	p := int64(1)
 	for i := 0; i < nd; i++ {
-		d := ex.freshAux("digit", BV(8))
-		digits[nd-1-i] = ts.BVBin(OpAdd, d, ex.byteC('0'))
-		ex.assume(ts.BVCmp(OpULe, d, ex.byteC(9)), true)
-		sum = ts.IntBin(OpIAdd, sum, ts.IntBin(OpIMul, ts.IntConst64(p), ts.BV2Int(d, false)))
+		d, b := ex.witnessDigit()
+		digits[nd-1-i] = b
+		sum = ts.IntBin(OpIAdd, sum, ts.IntBin(OpIMul, ts.IntConst64(p), d))
 		p *= 10
 	}
 	if nd > 1 {
